@@ -176,6 +176,23 @@ def strategy(draw, tier="quick"):
     case = {"fmt": fmt, "nf": nf, "na": na, "cell": cell, "seed": draw(st.integers(0, 3)), "op": op}
     if fmt == "lammpstrj" and na >= 2 and draw(st.booleans()):
         case["rows"] = "shuffled"       # a dump as LAMMPS writes it without `dump_modify sort id`
+    if fmt in ("h5", "xtc", "trr", "dcd", "nc", "netcdf", "xyz", "mdcrd", "lammpstrj", "gro") and draw(st.integers(0, 11)) == 0:
+        # a long generated file: more frames than any internal block size is likely to be (256, 512, 1000); coarse requests only
+        nf = draw(st.sampled_from([513, 600, 1030]))
+        na = draw(st.sampled_from([3, 10]))
+        case = {"fmt": fmt, "nf": nf, "na": na, "cell": _cellkind(fmt, draw(st.sampled_from(["ortho", "tric"]))), "seed": 0, "op": op, "long": True}
+        if draw(st.booleans()):
+            case["atoms"] = sorted(set(draw(st.lists(st.integers(0, na - 1), min_size=1, max_size=na))))
+        if op in ("stride", "iterload", "list"):
+            case["stride"] = draw(st.sampled_from([1, 2, 3, 5, 7, 10, 100, 511, 512]))
+        if op == "frame":
+            case["frame"] = draw(st.sampled_from([0, 255, 256, 511, 512, nf - 1]))
+        if op == "iterload":
+            case["chunk"] = draw(st.sampled_from([0, 100, 200, 256, 300, nf]))
+            case["skip"] = draw(st.sampled_from([0, 1, 255, 256, 512, nf - 1]))
+        if op == "list":
+            case["k"] = draw(st.integers(1, 2))
+        return _avoid(case, _open_keys(), draw(st.booleans()))
     if fmt in STORED and draw(st.integers(0, 9)) == 0:
         # a file written by another program (mdtraj's own test data): long, so only coarse requests
         nf, na = STORED[fmt], 22
@@ -270,6 +287,8 @@ def _run_case(case):
     viol, labels = [], ["fmt:" + case["fmt"], "op:" + case["op"]] + list(case.get("excluded", []))
     fmt, nf, na = case["fmt"], case["nf"], case["na"]
     fn, tr, full = _file(fmt, nf, na, case["cell"], case["seed"], rows=case.get("rows"), stored=case.get("stored", False))
+    if case.get("long"):
+        labels.append("long-file:%d" % case["nf"])
     if case.get("stored"):
         labels.append("stored-foreign-file")
     if case.get("rows"):
